@@ -33,6 +33,7 @@ let dispatch (name : string) (args : M.n list) : M.n list list =
   | "C03S" -> M.run_c03 true args
   | "ASM" -> M.run_asm args
   | "OBJ" -> M.run_obj args
+  | "OBJB" -> M.run_objb args
   | "LC3" -> M.run_lc3 args
   | "SRC" -> M.run_src args
   | "DBG" -> M.run_dbg args
